@@ -70,6 +70,16 @@ META = {
  'C01d-stale-removed': ('C01', 'third independent occurrence of the min_point_rdp fall-back edit (stale removed table)', False),
  'C04d-loop-budget': ('C04', 'every point retained (tight threshold): iteration cap 2(n-2) forgets the root range, the last range is never visited', False),
  'C10d-falsy-zero-min': ('C10', 'a selected knee of height exactly 0.0 followed by a higher selected knee (running minimum tested by truthiness): needed truthiness of symbolic reals in the term layer (S.__bool__ was missing: always true)', True),
+ 'C16d-residuals-interior-only': ('C16', 'first x == last x (vertical chord, closed loop or a single point): linear_fit_residuals drops the two end terms, which vanish only when the fit interpolates the end points; needed the wrapper identity with every abscissa symbolic and no precondition', True),
+ 'C18d-lower-hull-three-points': ('C18', 'three-point curve whose middle point is on or above the chord (early return for n <= 3)', False),
+ 'C20d-empty-like-int-dtype': ('C20', 'int64 input array: fitted values truncated when stored into a buffer that inherits the integer dtype. NOT caught: int64 / float64 agreement is the part of C20 that DESIGN section 6 declares out of reach (arrays of symbolic values have no integer dtype in the model)', False),
+ 'C11d-complete-t-one-shortcut': ('C11', 'complete_linkage with t exactly 1.0 (shortcut guard t >= 1 instead of t > 1)', False),
+ 'C12d-hull-singleton-fast-path': ('C12', 'hull mode, every knee its own cluster, one knee not on the lower hull (fast path returns all knees)', False),
+ 'C13d-selector-penultimate-guard': ('C13', 'knee at the second-to-last point with overlap >= t (selector guard idx+2 < n)', False),
+ 'C19d-rmspe-clamp-no-abs': ('C19', 'negative coordinate on the iterated side (denominator clamped with max(p, eps))', False),
+ 'C07d-grdp-right-guard-nonstrict': ('C07', 'split at the second-to-last point of a segment pushes a two-point child whose pop duplicates an index (mp_grdp with min_points near n, or t = 0): the reduction itself is malformed, which is C01s subject - caught by C01; C07s precondition (strictly increasing index list) excludes it', False),
+ 'C03d-menger-equal-rise-shortcut': ('C03', 'uneven spacing with equal rises on both sides of the corner (collinearity shortcut valid for even spacing only)', False),
+ 'C08d-worst-filter-stale-min': ('C08', 'rejected knee followed by a knee lower than it but higher than the last kept one (running minimum updated unconditionally)', False),
 }
 for name,(pid, needs, strengthened) in META.items():
     d='/verif/seeded/'+name
